@@ -275,3 +275,77 @@ def cases(rng, tier):
             if rng.random() < 0.5:
                 text = "bytes=" + text
         yield mk(text, size)
+
+
+# ---- the resolution as the two file responses apply it -------------------------------
+
+def _status_through(side, header, size):
+    """status of a FileResponse over a file of `size` bytes asked with `Range: header` on one interface"""
+    import asyncio
+    import os
+    import tempfile
+
+    d = tempfile.mkdtemp(prefix="baize-verif-c03-")
+    path = os.path.join(d, "f.bin")
+    with open(path, "wb") as f:
+        f.write(b"x" * size)
+    try:
+        if side == "wsgi":
+            from baize.wsgi.responses import FileResponse
+            got = {}
+            env = {"REQUEST_METHOD": "GET", "HTTP_RANGE": header, "wsgi.input": None}
+            body = FileResponse(path)(env, lambda st, hd, exc_info=None: got.update(status=st))
+            for _ in body:
+                pass
+            if hasattr(body, "close"):
+                body.close()
+            return int(got["status"].split(" ")[0])
+        from baize.asgi.responses import FileResponse
+        msgs = []
+
+        async def receive():
+            return {"type": "http.disconnect"}
+
+        async def send(m):
+            msgs.append(m)
+
+        scope = {"type": "http", "method": "GET", "headers": [(b"range", header.encode("latin-1"))]}
+        loop = asyncio.new_event_loop()
+        try:
+            loop.run_until_complete(FileResponse(path)(scope, receive, send))
+        finally:
+            loop.close()
+        return [m["status"] for m in msgs if m["type"] == "http.response.start"][0]
+    finally:
+        import shutil
+        shutil.rmtree(d, ignore_errors=True)
+
+
+def extra(rng, tier):
+    """a header that range resolution rejects is rejected by the response that resolves it, on both interfaces, for
+    every file size (the empty file and the empty header value included); an accepted one is answered 200 / 206"""
+    headers = ["", "bytes=", "hello", "bytes", "items=0-1", "bytes=0-0", "bytes=-1", "bytes=-0", "bytes=0-", "bytes=3-",
+               "bytes=5-3", "bytes=0-0,2-2", "bytes=9-", "bytes=10-", "bytes=-5", "bytes=a-b", "bytes=0-0,-0", " ",
+               "bytes=0-4,6-9"]
+    violations, n, stats = [], 0, {}
+    for size in (0, 1, 5, 10):
+        for h in headers:
+            try:
+                FileResponseMixin.parse_range(h, size)
+                want = None
+            except Exception as exc:  # noqa
+                want = getattr(exc, "status_code", None)
+            for side in ("wsgi", "asgi"):
+                n += 1
+                try:
+                    got = _status_through(side, h, size)
+                except Exception as exc:  # noqa
+                    got = "raised %s" % exc_name(exc)
+                key = "%s/%s" % (side, got)
+                stats[key] = stats.get(key, 0) + 1
+                ok = (got == want) if want is not None else got in (200, 206)
+                if not ok:
+                    violations.append({"line": "through_%s %s %d" % (side, enc(h), size), "out": str(got),
+                                       "why": "range resolution of %r on %d bytes %s, the %s FileResponse answered %s" % (
+                                           h, size, "rejects with %s" % want if want else "accepts", side.upper(), got)})
+    return {"violations": violations, "through_file_responses": n, "statuses": stats}
